@@ -219,6 +219,30 @@ impl Ctx {
     }
 }
 
+/// a generated key of a cheap shape, written and read back (nothing else)
+fn many(cx: &mut Ctx, sh: &Shape, si: usize, name: &str, seed: u64) {
+    let r = guarded(|| -> Result<(bool, bool, bool), String> {
+        let mut subs = Vec::new();
+        for (kt, sign, _) in &sh.subs { let mut b = SubkeyParamsBuilder::default(); b.version(sh.ver).key_type(kt.clone()); if *sign { b.can_sign(true); } else { b.can_encrypt(caps_of(sh, subs.len())); } subs.push(b.build().map_err(|e| e.to_string())?); }
+        let mut p = SecretKeyParamsBuilder::default();
+        p.version(sh.ver).key_type(sh.primary.clone()).can_certify(true).can_sign(true).subkeys(subs).primary_user_id(format!("many {seed} <m{seed}@example.org>"));
+        let key = p.build().map_err(|e| e.to_string())?.generate(Rng::new(seed)).map_err(|e| e.to_string())?;
+        let w = key.to_bytes().map_err(|e| e.to_string())?;
+        let back = SignedSecretKey::from_bytes(&w[..]);
+        let same = matches!(&back, Ok(k) if *k == key);
+        let len_ok = key.write_len() == w.len();
+        let pw = SignedPublicKey::from(key.clone()).to_bytes().map_err(|e| e.to_string())?;
+        let pub_same = matches!(SignedPublicKey::from_bytes(&pw[..]), Ok(k) if k == SignedPublicKey::from(key.clone()));
+        Ok((same, len_ok, pub_same))
+    });
+    let rp = vec!["gen-many".to_string(), si.to_string(), seed.to_string()];
+    match r {
+        Ok(Ok((same, len_ok, pub_same))) => cx.out.case("", &[], &rp, &format!("reads-back={same} length={len_ok} public-reads-back={pub_same}"), Some(same && len_ok && pub_same), &format!("{name}-written-and-read-back")),
+        Ok(Err(e)) => cx.out.case("", &[], &rp, &format!("refused: {}", &e[..e.len().min(100)]), Some(false), &format!("{name}-many-refused")),
+        Err(p) => cx.out.case("", &[], &rp, &p, Some(false), &format!("{name}-many-panic")),
+    }
+}
+
 fn main() {
     quiet_panics();
     let cli = cli();
@@ -262,6 +286,9 @@ fn main() {
                 let name = format!("{}-{}{}", if sh.ver == KeyVersion::V6 { "v6" } else { "v4" }, sh.pname, sh.subs.iter().map(|s| format!("+{}", s.2)).collect::<String>());
                 if name == cli.rest[1] && sh.uids.to_string() == cli.rest.get(3).cloned().unwrap_or_default() && sh.pass.unwrap_or("") == cli.rest.get(4).map(|s| s.as_str()).unwrap_or("") { cx.one(sh, seed); }
             }
+        }
+        if cli.rest.len() >= 3 && cli.rest[0] == "gen-many" {
+            if let (Ok(si), Ok(seed)) = (cli.rest[1].parse::<usize>(), cli.rest[2].parse::<u64>()) { if let Some(sh) = shapes_all.get(si) { let name = format!("{}-{}", if sh.ver == KeyVersion::V6 { "v6" } else { "v4" }, sh.pname); many(&mut cx, sh, si, &name, seed); } }
         }
         cx.out.finish(); return;
     }
@@ -310,6 +337,20 @@ fn main() {
         let slow = matches!(sh.primary, KeyType::Rsa(_) | KeyType::Dsa(_));
         let n: u64 = if slow { if thorough { 6 } else { 1 } } else if thorough { 400 } else { 60 };
         for s in 0..n { cx.one(sh, cli.seed * 100_000 + s); }
+    }
+    // ---- the 1-in-256 cases of the cheap shapes: a generated key is written and read back for many seeds (a secret value
+    //      whose first or last octet happens to be zero shows only then); nothing else is checked here, so a seed costs well
+    //      under a millisecond
+    {
+        let n: u64 = if thorough { 8000 } else { 1800 };
+        for si in [0usize, 7, 2] {
+            let sh = &shapes_all[si];
+            let n = if si == 2 { n / 3 } else { n };
+            let name = format!("{}-{}", if sh.ver == KeyVersion::V6 { "v6" } else { "v4" }, sh.pname);
+            for s in 0..n {
+                many(&mut cx, sh, si, &name, 700_000 + cli.seed * 100_000 + s);
+            }
+        }
     }
     cx.out.finish();
 }
